@@ -1,6 +1,6 @@
 (* Executable entry of the schemaops model: opcode :: payload. *)
 From GV Require Import Base.Prelude SchemaOps.Schema SchemaOps.SchemaWire SchemaOps.NatOrder
-  SchemaOps.Sort SchemaOps.Diff SchemaOps.Build SchemaOps.Sdl SchemaOps.Introspect SchemaOps.IntrospectWire SchemaOps.Client.
+  SchemaOps.Sort SchemaOps.Diff SchemaOps.Build SchemaOps.Sdl SchemaOps.Introspect SchemaOps.IntrospectWire SchemaOps.Client SchemaOps.Literals.
 
 Definition enc_change (c : change) : list N :=
   c_kind c :: enc_list enc_text (c_path c).
@@ -64,6 +64,16 @@ Definition run (inp : list N) : list N :=
           | Some s => 1 :: enc_schema s
           | None => [2]
           end
+      | _ => [0]
+      end
+  | 12 :: r =>   (* print_ast of a default-value literal: Lang/Printer.pp on its const-value node *)
+      match dec_value WFUEL r with
+      | Some (v, []) => 1 :: enc_text (print_literal v)
+      | _ => [0]
+      end
+  | 13 :: r =>   (* parse_const_value: Lang/Parser.parse_text EConstValue *)
+      match dec_text r with
+      | Some (t, []) => match parse_literal t with Some v => 1 :: enc_value v | None => [2] end
       | _ => [0]
       end
   | _ => [999999]
